@@ -204,6 +204,10 @@ def main(tier, seed):
                             # rounded result that happens to be a rational number: judged with the tolerance
                             stats_n["values_float"] += 1
                             steps[n].append(dict(base, approx=F(val["q"]), eps=None, exact=exact_flag))
+                        elif "float" in val and exact_flag:
+                            # a result flagged exact must be exactly equal: a floating point value is taken literally
+                            stats_n["values_exact"] += 1
+                            steps[n].append(dict(base, val=F(val["float"]), exact=True))
                         elif "approx" in val or "float" in val:
                             x = F(val.get("approx", val.get("float")))
                             if exact_flag and "approx" in val:
